@@ -25,7 +25,9 @@ TECHNIQUE = "symbolic execution (zsym, z3) of bounded histories executed with an
 RANGES = dict(gi=(0, 1), a=(0, 4), b=(-1, 1), c=(-1, 1), d=(0, 1))
 
 
-MODES = [(1, 0), (2, 1), (3, 0), (1, 1)]  # (nesting depth, exception thrown inside the innermost block)
+# (nesting depth, exception thrown inside the innermost block, level whose block catches it - 0 = outside every journal)
+MODES = [(1, 0, 0), (2, 1, 0), (3, 0, 0), (2, 1, 1), (3, 1, 2), (3, 1, 1), (1, 1, 0)]
+QUICK_MODES = 4
 
 
 class _Boom(Exception):
@@ -89,8 +91,14 @@ def identity_table():
 def run_history(seed, ops, P):
     st = irlib.seed(seed)
     raised = []
-    for i, op in enumerate(ops):
-        raised.append(irlib.apply(st, op, P[f"gi{i}"], P[f"a{i}"], P[f"b{i}"], P[f"c{i}"], P[f"d{i}"]))
+    # multi-element arguments are handed over as one-shot iterators (in every one of the compared executions): recording an
+    # operation must not consume what the operation is about to read
+    saved, irlib.ONE_SHOT = irlib.ONE_SHOT, True
+    try:
+        for i, op in enumerate(ops):
+            raised.append(irlib.apply(st, op, P[f"gi{i}"], P[f"a{i}"], P[f"b{i}"], P[f"c{i}"], P[f"d{i}"]))
+    finally:
+        irlib.ONE_SHOT = saved
     return st, raised
 
 
@@ -100,7 +108,7 @@ def body_for(seed, ops):
 
     def body(P):
         Q = {k: operator.index(v) for k, v in P.items()}  # one concretisation shared by the three executions
-        depth, throw = MODES[Q["mode"]]
+        depth, throw, caught_at = MODES[Q["mode"]]
         problems = []
         pristine = identity_table()
         # (1) plain
@@ -124,11 +132,23 @@ def body_for(seed, ops):
                 with Journal() as j:
                     journals.append(j)
                     if level < depth:
-                        try:
+                        if throw and caught_at == level:
+                            installed = identity_table()     # what THIS journal installed
+                            try:
+                                nest(level + 1)
+                            except _Boom:
+                                # the inner journals were left by exception; this one is still active
+                                now = identity_table()
+                                if now != installed:
+                                    diff = [k for k in now if now[k] != installed[k]]
+                                    problems.append(f"after inner journals were left by an exception caught inside journal level {level}, {len(diff)} attributes are not the objects "
+                                                    f"this journal installed: {diff[:3]}")
+                                n0 = len(j.entries)
+                                ir.Value(name="after_catch")
+                                if not any(e.operation == "init" and e.class_name == "Value" for e in j.entries[n0:]):
+                                    problems.append(f"an operation performed in journal level {level} after it caught the exception of an inner journal was not recorded")
+                        else:
                             nest(level + 1)
-                        finally:
-                            # leaving the inner journal restores exactly what this level had installed
-                            pass
                     else:
                         st1, raised1 = run_history(seed, ops, Q)
                         if throw:
@@ -145,7 +165,7 @@ def body_for(seed, ops):
             diff = [k for k, v in identity_table().items() if pristine[k] != v]
             problems.append(f"classes not restored after leaving all journals (throw={throw}): {diff[:4]}")
             _wrappers.restore_ir_classes(_wrappers_original_cache)  # keep later paths meaningful
-        if bool(throw) != (escaped is not None):
+        if bool(throw and not caught_at) != (escaped is not None):
             problems.append(f"exception inside the block: thrown={throw} escaped={escaped}")
         if raised1 != raised0:
             problems.append(f"outcomes differ with a journal: {raised0} vs {raised1}")
@@ -202,11 +222,11 @@ _wrappers_original_cache = _wrappers.get_original_methods()
 def make_case(tier, key):
     seed, op = key
     ranges = {f"{p}0": r for p, r in RANGES.items()}
-    ranges["mode"] = (0, len(MODES) - 1 if tier != "quick" else 2)
+    ranges["mode"] = (0, len(MODES) - 1 if tier != "quick" else QUICK_MODES - 1)
 
     def sig(args, obs):
         first = obs["problems"][0]
-        for tag in ("journal entries", "not the objects they were", "not restored", "outcomes differ", "IR state differs", "program order", "keeps its object", "exception inside"):
+        for tag in ("journal entries", "not the objects they were", "not the objects this journal installed", "was not recorded", "not restored", "outcomes differ", "IR state differs", "program order", "keeps its object", "exception inside"):
             if tag in first:
                 return "C20:" + tag.replace(" ", "-")
         return "C20:other"
